@@ -984,13 +984,21 @@ def _handle_upload_pack_head(
         (new_shallow, new_unshallow) = _read_shallow_updates(proto.read_pkt_seq())
         shallow_read = True
 
+    # Without multi_ack the server sends a single "ACK <sha>" (or a NAK after
+    # "done"), which is what the tail of the conversation reads.
+    multi_ack = (
+        CAPABILITY_MULTI_ACK in capabilities
+        or CAPABILITY_MULTI_ACK_DETAILED in capabilities
+        or protocol_version == 2
+    )
+
     have = next(graph_walker)
     in_vain = 0
     got_ack = False
     while have:
         proto.write_pkt_line(COMMAND_HAVE + b" " + have + b"\n")
         in_vain += 1
-        if can_read is not None and can_read():
+        if multi_ack and can_read is not None and can_read():
             pkt = proto.read_pkt_line()
             assert pkt is not None
             parts = pkt.rstrip(b"\n").split(b" ")
